@@ -44,6 +44,22 @@ Theorem C09_step_facts : forall cf d13 s e st e' k,
 Proof. exact bake_step_facts. Qed.
 Print Assumptions C09_step_facts.
 
+(* "plus whatever of it remove steps discarded": the trash of a remove step is exactly what left its target *)
+Theorem C09_discarded_is_what_remove_took : forall cf d13 s e t w e' k,
+  renv_inv cf e -> bake_step cf d13 e (SRemove t w) = Ok (e', k) ->
+  get s (s_trash k) == amount_in_obj s (s_to0 k) - amount_in_obj s (s_to1 k).
+Proof. exact remove_trash_is_loss. Qed.
+Print Assumptions C09_discarded_is_what_remove_took.
+
+(* Recipe.bake itself, with hypotheses on the shape of the recipe only: distinct names (C16 enforces them), well-formed substances,
+   no step mentions a name that a later step creates (the API returns a created name only when its step is added) *)
+Theorem C09_bake : forall cf s dests objs steps e' tr,
+  NoDup dests -> renv_inv cf objs -> Forall wf_rstep steps -> NoDup (map fst objs ++ created_names steps) -> no_early_use steps ->
+  bake cf objs steps = Ok (e', tr) ->
+  used_raw s dests tr == dest_total s dests e' - dest_total s dests objs + trash_total s tr.
+Proof. exact bake_used_is_net_gain. Qed.
+Print Assumptions C09_bake.
+
 (* not vacuous: a salt stock is made inside the recipe, dispensed into two wells, one well is emptied again, and the
    plate is topped up; the hypotheses hold and the query over the plate is the salt still there plus the salt discarded *)
 Definition water := {| sid := 1; knd := Liquid; mw := 18; dens := 1; act := 1 |}.
